@@ -2,39 +2,41 @@
    update, in-memory update, save), deaths, deletions of cache files. *)
 From Eupsv Require Import Base.Base Base.BaseLemmas Model.Db Model.Cache.
 From Eupsv Require Import Proofs.DbLib Proofs.Db Proofs.DbSim Proofs.DbInv Proofs.DbCor.
-From Eupsv Require Import Proofs.CacheLib Proofs.CacheWt Proofs.CacheRebuild Proofs.CacheEff Proofs.CacheInv Proofs.CacheLoad.
+From Eupsv Require Import Proofs.CacheLib Proofs.CacheWt Proofs.CacheRebuild Proofs.CacheEff Proofs.CacheU Proofs.CacheInv Proofs.CacheLoad.
 From Coq Require Import Lia.
 
 Definition wpath (w : world) : list str := map fst (w_db w).
 
 (* ---------------------------------------------------------------- the load of all stacks *)
 
-Lemma ps_ok_same w w' s ps :
-  w_db w' = w_db w -> (forall l f, pk_get w' l s f = pk_get w l s f) -> ps_ok w s ps -> ps_ok w' s ps.
+Lemma ps_ok_same w w' uo s ps :
+  w_db w' = w_db w -> w_uc w' = w_uc w -> (forall l f, pk_get w' l s f = pk_get w l s f) ->
+  ps_ok w uo s ps -> ps_ok w' uo s ps.
 Proof.
-  intros E1 E2 [A B]. split; [rewrite E1; exact A|]. intros l f m p H1 H2. rewrite E2 in H2. exact (B l f m p H1 H2).
+  intros E1 E3 E2 [A [U B]]. split; [rewrite E1; exact A|]. split; [rewrite E3; exact U|].
+  intros l f m p H1 H2. rewrite E2 in H2. exact (B l f m p H1 H2).
 Qed.
 
-Lemma load_stacks_ok tick loc nf path : forall w w' m,
-  clock_strict tick -> INV w -> NoDup path -> load_stacks tick w loc nf path = (w', m) ->
-  INV w' /\ w_db w' = w_db w /\ map fst m = path /\
+Lemma load_stacks_ok tick loc utd nf path : forall w w' m,
+  clock_strict tick -> INV w -> utd = owner loc -> NoDup path -> load_stacks tick false w loc utd nf path = (w', m) ->
+  INV w' /\ w_db w' = w_db w /\ w_uc w' = w_uc w /\ map fst m = path /\
   (forall s, ~ In s path -> forall l f, pk_get w' l s f = pk_get w l s f) /\
   (forall s ps, alookup s m = Some ps ->
-     ps_ok w' s ps /\ (forall f, In f nf -> alookup f (ps_lookup ps) <> None)).
+     ps_ok w' utd s ps /\ (forall f, In f nf -> alookup f (ps_lookup ps) <> None)).
 Proof.
-  induction path as [|s r IH]; intros w w' m CS I ND E; cbn [load_stacks] in E.
+  induction path as [|s r IH]; intros w w' m CS I Hu ND E; cbn [load_stacks] in E.
   - inversion E. subst. split; [exact I|]. split; [reflexivity|]. split; [reflexivity|]. split; [reflexivity|].
-    intros s ps H. cbn in H. discriminate.
-  - destruct (from_cache tick w s loc nf) as [w1 ps1] eqn:Ef.
-    destruct (load_stacks tick w1 loc nf r) as [w2 m2] eqn:El. inversion E. subst w' m. clear E.
-    destruct (from_cache_ok tick w s loc nf w1 ps1 CS I Ef) as [I1 [OK1 [[D1 [_ [_ P1]]] L1]]].
+    split; [reflexivity|]. intros s ps H. cbn in H. discriminate.
+  - destruct (from_cache tick false w s loc utd nf) as [w1 ps1] eqn:Ef.
+    destruct (load_stacks tick false w1 loc utd nf r) as [w2 m2] eqn:El. inversion E. subst w' m. clear E.
+    destruct (from_cache_ok tick w s loc utd nf w1 ps1 CS I Hu Ef) as [I1 [OK1 [[D1 [_ [_ [U1 P1]]]] L1]]].
     inversion ND as [|? ? Hn ND']. subst.
-    destruct (IH w1 w2 m2 CS I1 ND' El) as [I2 [D2 [M2 [P2 R2]]]].
-    split; [exact I2|]. split; [congruence|]. split; [cbn; rewrite M2; reflexivity|]. split.
+    destruct (IH w1 w2 m2 CS I1 eq_refl ND' El) as [I2 [D2 [U2 [M2 [P2 R2]]]]].
+    split; [exact I2|]. split; [congruence|]. split; [congruence|]. split; [cbn; rewrite M2; reflexivity|]. split.
     + intros s' Hs' l f. rewrite P2 by (intro; apply Hs'; right; assumption).
       apply P1. intro. subst. apply Hs'. left. reflexivity.
     + intros s' ps H. cbn [alookup] in H. destruct (str_eqb_spec s' s) as [->|N].
-      * inversion H. subst ps. split; [|exact L1]. apply (ps_ok_same w1); [exact D2| |exact OK1].
+      * inversion H. subst ps. split; [|exact L1]. apply (ps_ok_same w1); [exact D2|exact U2| |exact OK1].
         intros l f. apply P2. exact Hn.
       * apply R2. exact H.
 Qed.
@@ -103,11 +105,11 @@ Proof.
   specialize (IH (do_act tick w x)). pose proof (do_effects_clock tick (compile (w_db w) x) CS w). unfold do_act in *. lia.
 Qed.
 
-Lemma wt_acts_agree s fl g : forall ps d,
+Lemma wt_acts_agree uts s fl g : forall ps d,
   lookup_agree ps d s -> no_dangling (view d) -> acts_ok (view d) g ->
   Forall (fun x => act_root x = s /\ act_flavor x = fl) g ->
   has_stack d s = true -> alookup fl (ps_lookup ps) <> None ->
-  exists ps' ch, wt_acts false g ps = Ok (ps', ch) /\
+  exists ps' ch, wt_acts false uts g ps = Ok (ps', ch) /\
     lookup_agree ps' (apply_acts d g) s /\ ps_modtimes ps' = ps_modtimes ps /\
     (forall f, alookup f (ps_lookup ps) <> None -> alookup f (ps_lookup ps') <> None).
 Proof.
@@ -115,7 +117,7 @@ Proof.
   - exists ps, false. split; [reflexivity|]. split; [exact A|]. split; [reflexivity|auto].
   - destruct OK as [O1 O2]. inversion F as [|? ? [R1 R2] F']. subst.
     assert (Hf' : alookup (act_flavor x) (ps_lookup ps) <> None) by exact Hf.
-    destruct (wt_act_agree ps d (act_root x) x A ND O1 eq_refl Hs Hf') as [ps1 [c1 [E1 [A1 [M1 K1]]]]].
+    destruct (wt_act_agree uts ps d (act_root x) x A ND O1 eq_refl Hs Hf') as [ps1 [c1 [E1 [A1 [M1 K1]]]]].
     assert (ND1 : no_dangling (view (apply (compile d x) d))).
     { eapply no_dangling_aeq; [apply aeq_sym, compile_refines|]. apply aapply_no_dangling; assumption. }
     assert (OK1 : acts_ok (view (apply (compile d x) d)) g).
